@@ -224,7 +224,9 @@ impl<'de> Deserialize<'de> for LuaSyntaxId {
 #[derive(Debug, Clone, Copy, PartialEq, Eq, Hash)]
 pub struct LuaAstPtr<T: LuaAstNode> {
     pub syntax_id: LuaSyntaxId,
-    _phantom: PhantomData<T>,
+    // `fn() -> T` keeps the pointer `Send + Sync` for every `T` without an `unsafe impl`:
+    // it only records the node type and never holds a `T`.
+    _phantom: PhantomData<fn() -> T>,
 }
 
 impl<T: LuaAstNode> LuaAstPtr<T> {
@@ -249,5 +251,3 @@ impl<T: LuaAstNode> LuaAstPtr<T> {
     }
 }
 
-unsafe impl<T: LuaAstNode> Send for LuaAstPtr<T> {}
-unsafe impl<T: LuaAstNode> Sync for LuaAstPtr<T> {}
